@@ -198,7 +198,10 @@ class Driver:
 
     def trace(self, **extra):
         t = {"cls": self.cfg["cls"], "p": self.cfg["p"], "N": self.cfg["N"],
-             "passes": self.cfg["passes"], "ctor": self.ctor, "ev": self.ev}
+             "passes": self.cfg["passes"], "ctor": self.ctor, "hung": 0, "capped": 0,
+             "ev": self.ev}
+        if "calls" in self.cfg:
+            t["calls"] = self.cfg["calls"]
         t.update(extra)
         return t
 
@@ -269,13 +272,34 @@ def scripted(cfg, calls):
     return d.trace()
 
 
+class _Hang(BaseException):
+    pass
+
+
+def _alarm(signum, frame):
+    raise _Hang()
+
+
+WATCHDOG_S = int(os.environ.get("VERIF_WATCHDOG", "120"))
+
+
 def _work(cfg):
+    """One configuration -> one trace.  A per-case watchdog turns a hang of the library
+    into an outcome ("hung": 1) instead of a hang of the harness."""
+    import signal
+    signal.signal(signal.SIGALRM, _alarm)
+    signal.alarm(cfg.get("watchdog", WATCHDOG_S))
     try:
         if "calls" in cfg:
             return scripted(cfg, cfg["calls"])
         return canonical(cfg)
+    except _Hang:
+        return {"cls": cfg["cls"], "p": cfg["p"], "N": cfg["N"], "passes": cfg["passes"],
+                "ctor": 0, "hung": 1, "capped": 0, "ev": []}
     except BaseException as e:  # machinery failure, reported by the caller
         return {"machinery": repr(e), "cfg": cfg}
+    finally:
+        signal.alarm(0)
 
 
 def record_many(cfgs, procs=None):
